@@ -24,12 +24,13 @@ Theorem C15_cache_transparent :
 Proof. exact thread_results_solo. Qed.
 Print Assumptions C15_cache_transparent.
 
-(* per-run obligation on the table regenerated from /repo: the only write to an unsynchronised
-   package variable outside package initialisation and the Register*/Define* configuration
-   functions is the lazy re-initialisation of the uniqueness checker in visitJSONArray, which only
-   executes when a caller registered a nil checker *)
+(* per-run obligation on the table regenerated from /repo: no function reachable from traffic writes
+   an unsynchronised package variable - the writes are those of package initialisation and of the
+   Register*/Define* configuration functions.  (Until 578aaa5 the table had one more row, the lazy
+   re-initialisation of the uniqueness checker inside visitJSONArray after a nil registration: the
+   race the C15 child now exhibits when that row comes back.) *)
 Theorem C15_gen_writes_ok :
-  traffic_writes package_writes = [("openapi3", "sliceUniqueItemsChecker", "(*Schema).visitJSONArray")].
+  traffic_writes package_writes = [].
 Proof. vm_compute. reflexivity. Qed.
 
 (* the caches named by the property are declared with their synchronisation *)
